@@ -180,6 +180,12 @@ fn atoms() -> Vec<&'static str> {
     vec!["null", "true", "false", "0", "-1", "-9223372036854775808", "18446744073709551615", "1.5", "-0.0", "1e2", "\"\"", "\"a\"", "\"NaN\"", "\"Infinity\"", "\"-Infinity\"", "\"aGk=\"", "\"true\"", "\"1\"", "\"01234567-89ab-cdef-fedc-ba9876543210\""]
 }
 
+/// near misses of the coercible spellings (doubles, booleans, integers, Base64, uuid)
+const LOOK_ALIKES: [&str; 30] = [
+    "inf", "Inf", "infinity", "INFINITY", "-inf", "+Infinity", "+inf", "nan", "NAN", "-NaN", "+NaN", "1e999", "-1e999", "1e39", "1.5", "0x10", " 1", "1 ", "1_0", "+1", "True", "TRUE", "yes", "aGk", "aGk=\n", "a-_=",
+    "01234567-89AB-CDEF-FEDC-BA9876543210", "0123456789abcdeffedcba9876543210", "{01234567-89ab-cdef-fedc-ba9876543210}", "Infinity ",
+];
+
 const KEYS: [&str; 6] = ["a", "b", "1", "true", "NaN", "01234567-89ab-cdef-fedc-ba9876543210"];
 
 fn containers(elems: &[String]) -> Vec<String> {
@@ -263,7 +269,15 @@ fn check_c(doc: &str, shape: &Shape, r: &mut Report) {
     let dv = match direct {
         Ok(v) => v,
         Err(_) => {
-            r.outcome("C:direct-parse-rejects (no demand)");
+            // the property is a capability: what direct parsing takes, the view takes with the
+            // same value. Where direct parsing rejects nothing is demanded (the view is more
+            // lenient already on the pinned tree: Rust's number spellings such as "+1" or "inf"
+            // in key position, raw string bytes for a `bytes` visitor); only counted
+            match conjure_serde::json::client_from_str::<Any>(doc).ok().map(|any| vcommon::catch(|| Seed(shape).deserialize(any).is_ok())) {
+                Some(Ok(true)) => r.outcome("C:direct-parse-rejects,view-accepts (no demand)"),
+                Some(Err(p)) => r.violation(format!("C13|C|panic|{}", shape.text()), format!("viewing {} as {} through Any panicked: {}", doc, shape.text(), p), json!({"space": "C", "doc": doc, "shape": shape.text()})),
+                _ => r.outcome("C:direct-parse-and-view-reject (no demand)"),
+            }
             return;
         }
     };
@@ -683,6 +697,25 @@ pub fn run(args: &Args) -> Report {
         })
         .reduce(new, merge);
     report.merge(c);
+    // texts that look like a coercible spelling but are not one (std's float parser takes many
+    // of them): bare, in a list, as a member — against every view shape
+    let mut alike = vec![];
+    for t in LOOK_ALIKES {
+        alike.push(format!("\"{}\"", t));
+        alike.push(format!("[\"{}\"]", t));
+        alike.push(format!("{{\"a\":\"{}\"}}", t));
+        alike.push(format!("{{\"{}\":1}}", t));
+    }
+    let c2 = alike
+        .par_iter()
+        .fold(new, |mut r, d| {
+            for s in &view_shapes {
+                check_c(d, s, &mut r);
+            }
+            r
+        })
+        .reduce(new, merge);
+    report.merge(c2);
     // number literals: every binary exponent x mantissa pattern, as a document and viewed as f64
     let f64_shape = Shape::Leaf(Leaf::F64);
     for b in crate::c01::double_grid(args.tier.is_thorough()) {
